@@ -35,6 +35,7 @@ TABLE = [
  ('C17-registration-under-global-lock', 'fixed', '8888888', 'with a stalled subscriber on topic A and more than 101 registrations queued on it, handle_stream parks in tx.send() while holding the global topic lock: no client can open a stream on any other topic'),
  ('C11-accepted-then-abandoned', 'fixed', '9999999', 'a registration in a role that does not match the topic\'s existing kind (e.g. RegisterReplier on a pub/sub topic) is answered Ok and then abandoned: the stream task panics in Socket::unwrap_pubsub/unwrap_reqrep'),
  ('C11-panic-in-selium-panic-server-src-topic-mod', 'fixed', '9999999', 'handle_stream panics (topic/mod.rs unwrap_pubsub / unwrap_reqrep) after having answered Ok to a registration of the other messaging pattern'),
+ ('C03-batch-outgrows-frame-limit', 'fixed', 'aaaaaaa', 'batching: members that are individually fine but together exceed 1 MiB are all dropped when the batch frame is refused at a later poll_ready; send() had returned Ok for each of them'),
  ('C06-decoder-panic-decode-message-batch', 'fixed', '0000000', 'decode_message_batch panics on malformed input (short header: get_u64; oversize element: split_to; huge count: capacity overflow)'),
  ('C06-decoder-panic-subscriber-chain', 'fixed', '0000000', 'subscriber chain (decompress -> unbatch -> decode) panics inside decode_message_batch on malformed batch bodies'),
  ('C06-oversized-allocation-decode-message-batch', 'fixed', '0000000', 'decode_message_batch allocates count x 32 bytes for an attacker-chosen count (512 MiB for 8 input bytes)'),
@@ -50,7 +51,7 @@ def main():
         for l in log:
             if l.split(' ',1)[1].startswith(prefix): return l.split()[0]
         return None
-    subst = {'0000000': sha('fix: decode_message_batch'), '1111111': sha('fix: BincodeCodec::decode'), '2222222': sha('fix: Publisher::finish flushes'), '3333333': sha('fix: Subscriber yields the messages of a batch'), '4444444': sha('fix: a Replier gets a fresh retry budget'), '5555555': sha('fix: Requestor reads replies from the new stream'), '6666666': sha('fix: backoff delays saturate'), '7777777': sha('fix: TopicName::try_from no longer panics'), '8888888': sha('fix: a registration no longer holds the global topic lock'), '9999999': sha('fix: a registration whose role does not match')}
+    subst = {'0000000': sha('fix: decode_message_batch'), '1111111': sha('fix: BincodeCodec::decode'), '2222222': sha('fix: Publisher::finish flushes'), '3333333': sha('fix: Subscriber yields the messages of a batch'), '4444444': sha('fix: a Replier gets a fresh retry budget'), '5555555': sha('fix: Requestor reads replies from the new stream'), '6666666': sha('fix: backoff delays saturate'), '7777777': sha('fix: TopicName::try_from no longer panics'), '8888888': sha('fix: a registration no longer holds the global topic lock'), '9999999': sha('fix: a registration whose role does not match'), 'aaaaaaa': sha('fix: a batch is framed before it can outgrow')}
     out = []
     for f in sorted(glob.glob(os.path.join(HERE,'findings','*.json'))):
         b = os.path.basename(f)[:-5]
